@@ -70,7 +70,9 @@ fn e2c_sections(cfg: &RunCfg) -> Vec<Box<dyn AnySection>> {
     if th {
         big.push(("ckks_18x40_n4_real".into(), 4, vec![40; 18], Noise::Real));
         big.push(("ckks_4x40_n1024_zero".into(), 1024, vec![40; 4], Noise::Zero));
-        big.push(("ckks_9x40_n4096_zero".into(), 4096, vec![40; 9], Noise::Zero));
+        // (a 9-prime chain at N = 4096 keeps ~6000 abstract witnesses of up to 4.7 MB each: 24 GB. Many primes at large N are
+        // C01 / C04 / C05 / C10's sections; here the long chains stay at N = 4 and the large degrees at 3..4 primes.)
+        big.push(("ckks_3x40_n4096_zero".into(), 4096, vec![40, 40, 50], Noise::Zero));
         big.push(("ckks_3x50_n8192_real".into(), 8192, vec![50, 50, 60], Noise::Real));
     }
     let nbig = big.len();
@@ -92,7 +94,7 @@ fn e2c_sections(cfg: &RunCfg) -> Vec<Box<dyn AnySection>> {
             big_scale: !is_big,
             depth: if is_big { 1 } else { 2 },
             abstract_closure: true,
-            sclass_width: if th { 10.0 } else { 20.0 },
+            sclass_width: if th && !is_big { 10.0 } else { 20.0 },
             index,
             count,
         }));
